@@ -747,6 +747,8 @@ func (f *Frame) rangeNext(x *ssa.Next, st *State) {
 	// (as long as the loop does not write maps of this type: the key set is still the one the range started with)
 	if !un.eng.loopWritesMap(f, x, dn) {
 		un.assume(st, Implies(Not(ok), Eq(seen, Ite(Eq(m, IntLit(0)), ConstArr(ArrSort(ks, SBool), tFalse), d))))
+		q2 := Term{"k!sub", ks}
+		un.assume(st, Forall([]Term{q2}, Implies(Select(seen, q2), And(Neq(m, IntLit(0)), Select(d, q2))), Select(seen, q2)))
 	}
 	un.setH(st, key, Ite(ok, Store(seen, k, tTrue), seen))
 	val := un.define(x.Name()+"_v", Select(vv, k))
